@@ -741,6 +741,28 @@ def large_cases(rng, n):
     return out
 
 
+def check_read_size_boundary(rep, rng, quick):
+    """elements around MAX_READ_SIZE (the most readFromStream asks of a stream in one call; 128 buffers): the same octets on every
+    kind of input, without a guiding type, captured whole by an untagged ANY (which goes back to the mark over everything it has
+    read), and as the ANY member of an indefinite-length record"""
+    from pyasn1.codec import streaming
+    M = streaming.MAX_READ_SIZE
+    sizes = (M - 1, M + 1) if quick else (M - 5, M - 1, M, M + 1, M + 100005, 2 * M + 3)
+    for total in sizes:
+        n = total - 5                       # 04 83 xx xx xx + n octets = `total` octets
+        elem = b'\x04\x83' + n.to_bytes(3, 'big') + pattern(n, total % 7)
+        any_t = ('any',)
+        rec_t = ('seq', [('r', None, ('int',)), ('r', None, ('any',))])
+        for label, ts, t, data in (
+                ('string', None, None, elem + b'\x02\x01\x07'),
+                ('untagged ANY', '(any)', any_t, elem + b'\x02\x01\x07'),
+                ('ANY member of an indefinite record', gen.ty_sexp(rec_t), rec_t, b'\x30\x80\x02\x01\x05' + elem + b'\x00\x00'),
+                ('untagged ANY, truncated', '(any)', any_t, elem[:-3])):
+            rep.case('read-size boundary: %s of %d octets' % (label, total), nontrivial=True)
+            rep.count('read-size-boundary')
+            check_kinds(rep, rng, 'ber', ts, t, gen.build(t) if t else None, data, 'element of %d octets (MAX_READ_SIZE%+d): %s' % (total, total - M, label))
+
+
 def decode_cases(rep, rng, n_small, n_large):
     # small generated values, all encoder modes; plus damaged variants of each
     for case in engine.gen_cases(rng, n_small, max_depth=2, allow_any=True):
@@ -949,6 +971,7 @@ def run(rep, tier, seed):
         rep.case('corpus raw ' + label)
         check_kinds(rep, rng, cdc, ts, None, None, bytes.fromhex(hx), label)
     check_unsupported(rep)
+    check_read_size_boundary(rep, rng, quick)
     histories(rep, rng, 800 if quick else 16000)
     growing_histories(rep, rng, 800 if quick else 16000)
     check_helpers(rep, rng, 100 if quick else 2000)
